@@ -81,10 +81,19 @@ class Interp:
         node, info = function_ast(real_func)
         self.inlined[info["qualname"]] = info
         env = Env(globs=getattr(real_func, "__globals__", {}))
-        env.owner_class = getattr(real_func, "_pyvc_owner", None)
+        env.owner_class = getattr(real_func, "_pyvc_owner", None) or self.owner_from_qualname(real_func)
         self.bind_closure(real_func, env)
         self.bind_params(node, env, args, kwargs or {}, selfv)
         return self.exec_body_as_function(node, env, info["qualname"])
+
+    def owner_from_qualname(self, fn):
+        parts = getattr(fn, "__qualname__", "").split(".")
+        if len(parts) < 2 or "<locals>" in parts:
+            return None
+        o = getattr(fn, "__globals__", {}).get(parts[0])
+        for p in parts[1:-1]:
+            o = getattr(o, p, None)
+        return o if isinstance(o, type) else None
 
     def bind_closure(self, fn, env):
         """free variables of a nested real function (decorator closures) come from its closure cells"""
@@ -186,6 +195,15 @@ class Interp:
             self.do_assert(s, env)
         elif isinstance(s, ast.Raise):
             name = self.exc_name(s.exc, env)
+            info = {}
+            if isinstance(s.exc, ast.Call):          # keep keyword arguments such as line_number=...; messages are dropped
+                for kw in s.exc.keywords:
+                    if kw.arg is not None:
+                        try:
+                            info[kw.arg] = self.eval(kw.value, env)
+                        except Unsupported:
+                            pass
+            self.ctx.last_raise = info
             raise PathEnd("raise", name, s)
         elif isinstance(s, ast.Pass):
             pass
@@ -1065,12 +1083,18 @@ class Interp:
         return self.call(f, args, kwargs, e.lineno, env)
 
     def call_super(self, e, env):
-        selfv = env.lookup("self") if "self" in env.vars or True else None
+        selfv = None
+        for nm in ("self", "cls"):
+            try:
+                selfv = env.lookup(nm)
+                break
+            except KeyError:
+                pass
         owner = self.cur_owner(env)
-        if owner is None:
+        if owner is None or selfv is None:
             raise Unsupported("super() outside a known class")
         name = e.func.attr
-        mro = selfv._cls.__mro__ if isinstance(selfv, SRec) else owner.__mro__
+        mro = selfv._cls.__mro__ if isinstance(selfv, SRec) else (selfv.__mro__ if isinstance(selfv, type) else owner.__mro__)
         idx = list(mro).index(owner)
         for k in mro[idx + 1:]:
             if name in k.__dict__:
@@ -1079,6 +1103,8 @@ class Interp:
                 kwargs = {kw.arg: self.eval(kw.value, env) for kw in e.keywords}
                 if k is object:
                     return None
+                if isinstance(raw, classmethod):
+                    raw = raw.__func__
                 return self.call_real(raw, [selfv] + args, kwargs, e.lineno, owner=k)
         raise Unsupported("super().%s not found" % name)
 
